@@ -1202,3 +1202,75 @@ def r11(R):
     for v in vs[:1]:
         R.violation(v.node, v.message, g2, v.path,
                     key='last id read before the commit lock')
+
+
+# ------------------------------------------------------------------ C04.R12
+@rule('C04.R12', 'a record given with its data is replaced by a backpointer '
+      'only to a record whose bytes were read and found equal to that data '
+      '(or to a record that is itself a backpointer): every implementation '
+      'of the backpointer search', props=['C17'], min_instances=2)
+def r12(R):
+    """`restore` (and the pack copier) write a backpointer instead of the
+    data when the hinted transaction holds "the same" record.  If the search
+    hands back a position without having compared the bytes, a hint that
+    names a record of the same length makes every later load of the
+    restored revision answer with the other record's bytes."""
+    from ..flow import cmp_sides
+    n = 0
+    for f in R.prog.all_functions():
+        if f.name != '_data_find' or f.cls is None:
+            continue
+        params = [a.arg for a in f.node.args.args]
+        if len(params) < 4:
+            continue
+        data = params[3]
+        g, b, F = R.cfg(f, f.cls, max_depth=0)
+        n += 1
+        R.instance('%s returns a position only after comparing `%s`'
+                   % (f.short, data))
+
+        def edge(node, st, lab, tgt, data=data):
+            if st == 'start' and node.kind == 'test' and lab in ('T', 'F'):
+                for e, truth in implied_atoms(node.ast, lab):
+                    if isinstance(e, ast.Attribute) and e.attr == 'plen' \
+                            and not truth:
+                        return 'ok'          # itself a backpointer
+                    if not isinstance(e, ast.Compare) or len(e.ops) != 1:
+                        continue
+                    for l, op, r in cmp_sides(e):
+                        eq = (op is ast.Eq and truth) or (
+                            op is ast.NotEq and not truth)
+                        if not eq:
+                            continue
+                        if isinstance(l, ast.Attribute) and l.attr == 'plen' \
+                                and isinstance(r, ast.Constant) and \
+                                r.value == 0:
+                            return 'ok'      # itself a backpointer
+                        if isinstance(l, ast.Name) and l.id == data and \
+                                isinstance(r, (ast.Name, ast.Attribute,
+                                               ast.Subscript)):
+                            return 'ok'      # the bytes were compared
+            return st
+
+        def at(node, st, g=g):
+            if node.kind == 'return' and st == 'start':
+                v = node.ast.value
+                if v is not None and not (isinstance(v, ast.Constant) and
+                                          not v.value):
+                    return Violation(
+                        'the backpointer search returns a position without '
+                        'having compared the record\'s bytes with the data '
+                        'given: a hint naming a record of the same length '
+                        'but other bytes turns the restored revision into a '
+                        'backpointer to those other bytes, and load, '
+                        'loadSerial, loadBefore and the iterator answer '
+                        'with them')
+            return st
+
+        vs, stats = explore(g, 'start', at=at, edge=edge)
+        R.count(stats)
+        for v in vs[:1]:
+            R.violation(v.node, v.message, g, v.path,
+                        key='position returned without comparing the bytes')
+    R.require(n >= 2, 'expected FileStorage._data_find and '
+              'PackCopier._data_find')
